@@ -27,8 +27,7 @@ Check truncated_message_spins. Check malformed_then_answered.
 
 (* tie: the functions this property's model describes by hand (not by translation) still have the pinned text; an
    edit to one of them breaks this obligation and sends the check searching for a failing input *)
-From VL Require Import ShapeFacts.
 From VLG Require Import ShapeGen.
 Theorem C06_modelled_code_is_the_pinned_text : shapes_for_C06 = true.
-Proof. exact shapes_C06_ok. Qed.
+Proof. vm_compute. reflexivity. Qed.
 Print Assumptions C06_modelled_code_is_the_pinned_text.
